@@ -127,6 +127,38 @@ func runConfig(engine, profile string, rt route, cells []cell) {
 		}
 		runCell(o, be, c)
 	}
+	// the client goes away while the backend has not answered anything yet (prompt processing). Five times in a row, so
+	// that whatever one such abort leaves behind shows in the leak clause below
+	for k := 0; k < 5; k++ {
+		if report.Expired() {
+			break
+		}
+		done := make(chan struct{})
+		be.Reset()
+		be.SetFixed(stack.Behaviour{Kind: "await-close", OnDone: func() { close(done) }})
+		body := `{"model":"m1","max_tokens":16,"stream":true,"messages":[{"role":"user","content":"hi"}]}`
+		s, err := stack.OpenStream(o.Addr, &stack.Req{Method: "POST", Target: rt.target, Body: []byte(body), Headers: [][2]string{{"Content-Type", "application/json"}, {"anthropic-version", "2023-06-01"}}})
+		if err != nil {
+			res.Break("client: %v", err)
+			return
+		}
+		res.Add("evaluations", 1)
+		arrived := stack.Eventually(10*time.Second, func() bool { return len(be.Requests()) > 0 })
+		s.Abort()
+		if arrived {
+			select {
+			case <-done:
+			case <-time.After(12 * time.Second):
+			}
+			if q := be.Requests(); len(q) > 0 && !q[0].PeerClosed() {
+				violate("client-abort-not-propagated", map[string]any{"engine": engine, "event": "abort-before-headers"},
+					fmt.Sprintf("engine=%s profile=%s route=%s: the client went away before the backend had answered; the upstream connection was still open 3 s later", engine, profile, rt.name),
+					map[string]any{"engine": "stack", "config": engine + "/" + profile + "/" + rt.name, "event": "abort-before-headers"})
+			}
+		}
+		s.Close()
+		res.SetAdd("distinct_nontrivial", fmt.Sprintf("%s|%s|%s|abort-before-headers|%v", engine, profile, rt.name, arrived))
+	}
 	// leak clause: everything this configuration started must be gone after a settle period
 	ok := stack.Eventually(10*time.Second, func() bool { return runtime.NumGoroutine() <= baseline+3 && be.OpenConns() == 0 })
 	if !ok {
